@@ -818,6 +818,9 @@ def rule_r5(chk, prog):
                 fn = getattr(fn, '_parent', None)
             wh = f'{cm.name}.{getattr(fn, "_qualname", "<module>")}'
             a = c.args[0]
+            if isinstance(fn, ast.FunctionDef):
+                from ..astutil import expand_locals
+                a = expand_locals(fn, a)
             lc = _lossy_call(a)
             if lc is not None:
                 chk.check('C08.R5', wh, c, False,
@@ -943,7 +946,17 @@ def rule_r7(chk, prog):
                                     isinstance(it.context_expr, ast.Call):
                                 op = it.context_expr
                     p = getattr(p, '_parent', None)
-            if op is None or not op.args or opt_read(op.args[0]) != 'infile':
+            if op is None or not op.args:
+                continue
+            fn0 = c
+            while fn0 is not None and not isinstance(
+                    fn0, (ast.FunctionDef, ast.Module)):
+                fn0 = getattr(fn0, '_parent', None)
+            pth = op.args[0]
+            if isinstance(fn0, ast.FunctionDef):
+                from ..astutil import expand_locals
+                pth = expand_locals(fn0, pth)
+            if opt_read(pth) != 'infile':
                 continue
             nread += 1
             par = getattr(c, '_parent', None)
